@@ -7,7 +7,12 @@ carrier.  For each member: link with WILD_SAVE_DIR=<d> (real wild subprocess), m
 delete the originals, run `<d'>/run-with <same wild>` with OUT=<path> from an unrelated working
 directory; the replay must exit 0 and write a byte-identical output.
 
-Member = carrier x {position: (characters, insertion place)}.  Names that the filesystem / `ar` /
+Member = carrier x {position: (characters, insertion place)}, plus the sub-family "option-like
+arguments": every single-letter option `-<c>` (c in A-Za-z0-9) that wild accepts (probed once per
+run, with a value as the next argument where it takes one), their attached forms, some two-letter
+strings, and whole-string values that a shell `echo` / `printf` would interpret (`-n`, `-e`, `-E`,
+`--`, `-`, `\c`, `\n`, empty), each as its own argument in argv, in a response file and in a nested
+response file, on the base link (shared or pie) in which the option changes the output.  Names that the filesystem / `ar` /
 the carrier's own syntax cannot represent are not members (counted).  Members whose original link
 fails also without WILD_SAVE_DIR are not members either (counted)."""
 import json
@@ -24,7 +29,8 @@ LEAD_ONLY = {"-"}            # only significant as the first character of a word
 ALSO_LEAD_IN_QUICK = {"~", "#"}
 
 MAIN_S = ('.section .text.entry,"ax",@progbits\n.globl entry\n.type entry,@function\nentry:\n'
-          '  call fa@PLT\n  call fb@PLT\n  call fc@PLT\n  ret\n')
+          '  call fa@PLT\n  call fb@PLT\n  call fc@PLT\nc24_local:\n  ret\n'
+          '.section .debug_info,"",@progbits\n  .long 0x12345678\n')
 
 
 def fn_s(name, fill):
@@ -64,6 +70,118 @@ QUICK_SKIP = {("nested-rsp", "archive-name"), ("nested-rsp", "output-name"),
               ("nested-rsp", "defsym-value")}
 
 
+# ---- sub-family "option-like arguments" ---------------------------------------------------
+import string
+
+OPT_CARRIERS = ("argv", "rsp", "nested-rsp")
+# Value tried first for a letter that does not work as a bare flag; then the generic ones.
+PREFERRED_VALUE = {"e": "fa", "o": DEFAULTS["output-name"], "L": "dqr", "l": "foo", "T": "tqs.ld",
+                   "z": "nodelete", "m": "elf_x86_64", "h": "sqh.so", "u": "fb", "y": "fa",
+                   "R": "rqp", "I": "/lib/ld-c24.so", "O": "2", "f": "fqaux.so", "F": "fqfil.so",
+                   "Y": "dqr", "b": "elf64-x86-64", "A": "x86-64", "G": "8", "t": "fa"}
+GENERIC_VALUES = ["fa", "dqr", "2"]
+TWO_LETTER = ["-ne", "-en", "-nE", "-Ee"]
+# Whole strings that `echo`, `printf` or a shell word parser treat specially.
+SIGNIFICANT_STRINGS = ["-n", "-e", "-E", "-ne", "-en", "-nE", "-Ee", "--", "-", "\\c", "\\n",
+                       "\\t", "\\\\", "\\0101", "%s", ""]
+T_SCRIPT_TEXT = "/* c24 */\n"
+
+
+def base_link_args(names, base, obj_args, extra):
+    head = ["-shared"] if base == "shared" else ["-pie"]
+    soname = ["-soname=" + names["soname-value"]] if base == "shared" else []
+    # `-L` and its directory as one word, as compilers pass it.
+    return [*head, "main.o", *obj_args, "-L" + names["L-dir"], "-lfoo",
+            "-o", as_arg(names["output-name"]), *soname,
+            "--defsym=foo=" + names["defsym-value"], *extra]
+
+
+def _probe_link(job):
+    """One link without save-dir. job: (W, wild, base, opt). Returns (rc, stderr, sha)."""
+    W, wild, base, opt = job
+    outp = os.path.join(W, DEFAULTS["output-name"])
+    try:
+        os.unlink(outp)
+    except OSError:
+        pass
+    argv = [*FIXED, *base_link_args(DEFAULTS, base, [DEFAULTS["object-name"],
+                                                     DEFAULTS["archive-name"]], []), *opt]
+    rc, err = run_clean([wild, *argv], {}, W)
+    return rc, err, vlib.file_sha(outp)
+
+
+def _probe_candidates(job):
+    """job: (tag, [opt lists to try in order], W, wild, baseline shas). Returns dict."""
+    tag, cands, W, wild, base_sha = job
+    rejected = None
+    for opt in cands:
+        rc, err, sha = _probe_link((W, wild, "shared", opt))
+        if rc in ("timeout", "oserror"):
+            return dict(tag=tag, harness=rc)
+        if rc == 0 and sha:
+            res = dict(tag=tag, opt=opt, link="shared", sensitive=sha != base_sha["shared"])
+            if not res["sensitive"]:
+                rc2, _, sha2 = _probe_link((W, wild, "pie", opt))
+                if rc2 in ("timeout", "oserror"):
+                    return dict(tag=tag, harness=rc2)
+                if rc2 == 0 and sha2 and sha2 != base_sha["pie"]:
+                    res.update(link="pie", sensitive=True)
+            return res
+        rejected = err.strip().splitlines()[0][-100:] if err.strip() else f"exit {rc}"
+        if "unrecognized option" in err:
+            break
+    return dict(tag=tag, opt=None, why=rejected)
+
+
+def probe_option_family(base, proto, wild, chk):
+    """Finds, by running wild, which option-like argument sequences it accepts, and on which base
+    link each one changes the output. Returns (accepted [dict(opt, base, sensitive)], rejected)."""
+    pw = os.path.join(base, "probe")
+    jobs = []
+
+    def workdir(i):
+        W = os.path.join(pw, f"w{i}")
+        os.makedirs(W)
+        b = build_member(dict(carrier="argv", vary=[], opt=["-T", "tqs.ld"]), W, proto)
+        if isinstance(b, str):
+            chk.machinery(f"cannot build the probe directory: {b}")
+        return W
+
+    W0 = workdir("base")
+    base_sha = {}
+    for b in ("shared", "pie"):
+        rc, err, sha = _probe_link((W0, wild, b, []))
+        if rc != 0 or not sha:
+            chk.machinery(f"plain {b} link fails: {err[-200:]}")
+        base_sha[b] = sha
+    cand_sets = []
+    for c in string.ascii_letters + string.digits:
+        vals = ([PREFERRED_VALUE[c]] if c in PREFERRED_VALUE else []) + \
+            [g for g in GENERIC_VALUES if g != PREFERRED_VALUE.get(c)]
+        cand_sets.append((f"-{c}", [["-" + c]] + [["-" + c, v] for v in vals]))
+    for c, v in PREFERRED_VALUE.items():
+        cand_sets.append((f"-{c}{v}", [["-" + c + v]]))                 # attached form
+    for t in TWO_LETTER:
+        cand_sets.append((t, [[t]]))
+    for sstr in SIGNIFICANT_STRINGS:
+        cand_sets.append((f"-h {sstr!r}", [["-h", sstr]]))              # as a value
+        if sstr not in TWO_LETTER and not (len(sstr) == 2 and sstr[0] == "-" and sstr[1].isalpha()):
+            cand_sets.append((f"{sstr!r}", [[sstr]]))                   # as an argument of its own
+    cand_sets.append(("-R <copied dir>", [["-R", DEFAULTS["L-dir"]]]))
+    for i, (tag, cands) in enumerate(cand_sets):
+        jobs.append((tag, cands, workdir(i), wild, base_sha))
+    accepted, rejected = [], []
+    for r in vlib.pmap(_probe_candidates, jobs, chunksize=2):
+        if r.get("harness"):
+            chk.machinery(f"option probe {r['tag']}: {r['harness']}")
+        if r["opt"] is None:
+            rejected.append({"tried": r["tag"], "why": r["why"]})
+        elif not any(a["opt"] == r["opt"] for a in accepted):
+            accepted.append(dict(opt=r["opt"], link=r["link"], sensitive=r["sensitive"]))
+    shutil.rmtree(pw, ignore_errors=True)
+    return accepted, rejected
+
+
 def insert(base, chars, place):
     if place == "lead":
         return chars + base
@@ -86,9 +204,14 @@ def insert_value(pos, chars, place):
     return insert(base, chars, place)
 
 
-def enumerate_members(thorough):
-    """Yields dict(carrier, vary=[(pos, chars, place), ...])."""
+def enumerate_members(thorough, option_family=()):
+    """Yields dict(carrier, vary=[(pos, chars, place), ...][, opt=[...], link=...])."""
     out = [dict(carrier=c, vary=[]) for c in CARRIERS]     # baselines: nothing varied
+    out += [dict(carrier=c, vary=[], link="pie") for c in OPT_CARRIERS]
+    for o in option_family:                                 # both tiers
+        for c in OPT_CARRIERS:
+            out.append(dict(carrier=c, vary=[], opt=list(o["opt"]), link=o["link"],
+                            sensitive=o["sensitive"]))
     for carrier, positions in CARRIERS.items():
         for pos in positions:
             if not thorough and (carrier, pos) in QUICK_SKIP:
@@ -123,6 +246,10 @@ def enumerate_members(thorough):
 
 def member_label(m):
     v = "+".join(f"{pos}={ch!r}@{place}" for pos, ch, place in m["vary"]) or "plain"
+    if m.get("opt") is not None:
+        v = "args[" + " ".join(repr(a) for a in m["opt"]) + "]"
+    if m.get("link", "shared") != "shared":
+        v += "/" + m["link"]
     return f"{m['carrier']}:{v}"
 
 
@@ -130,6 +257,8 @@ def rsp_quote(arg):
     """Encoding understood by wild's (and libiberty's) response-file reader: backslash quotes
     the next character."""
     out = []
+    if arg == "":
+        return None        # wild's reader drops `""`: an empty argument cannot be written
     for c in arg:
         if c.isalnum() or c in "._/=+:@,-" or ord(c) > 127:
             out.append(c)
@@ -233,17 +362,23 @@ def build_member(m, W, proto):
         extra = ["--version-script=" + names["version-script-name"]]
     if err:
         return err
-    # `-L` and its directory as one word, as compilers pass it.
-    link_args = ["-shared", "main.o", *obj_args, "-L" + names["L-dir"], "-lfoo",
-                 "-o", as_arg(names["output-name"]), "-soname=" + names["soname-value"],
-                 "--defsym=foo=" + names["defsym-value"], *extra]
+    base = m.get("link", "shared")
+    opt = list(m.get("opt") or [])
+    if any(a in ("tqs.ld", "-Ttqs.ld") for a in opt):
+        err = write(names["T-script-name"], T_SCRIPT_TEXT)
+        if err:
+            return err
+    link_args = base_link_args(names, base, obj_args, extra) + opt
+    if carrier in ("rsp", "nested-rsp"):
+        quoted = [rsp_quote(a) for a in link_args]
+        if None in quoted:
+            return "an empty argument cannot be written in a response file"
     if carrier == "rsp":
-        err = write(names["rsp-name"], "\n".join(rsp_quote(a) for a in link_args) + "\n")
+        err = write(names["rsp-name"], "\n".join(quoted) + "\n")
         argv = [*FIXED, "@" + names["rsp-name"]]
     elif carrier == "nested-rsp":
-        err = write(names["inner-rsp-name"],
-                    " ".join(rsp_quote(a) for a in link_args[2:]) + "\n")
-        err = err or write(names["rsp-name"], " ".join(rsp_quote(a) for a in link_args[:2]) + " " +
+        err = write(names["inner-rsp-name"], "\n".join(quoted[2:]) + "\n")
+        err = err or write(names["rsp-name"], " ".join(quoted[:2]) + " " +
                            rsp_quote("@" + names["inner-rsp-name"]) + "\n")
         argv = [*FIXED, "@" + names["rsp-name"]]
     else:
@@ -374,16 +509,24 @@ def assign_keys(members, results):
             return base_key(st, carrier, pos, ch, place)
         return None
 
-    plain = {m["carrier"]: r["status"] for m, r in zip(members, results) if not m["vary"]}
+    plain = {(m["carrier"], m.get("link", "shared")): r["status"]
+             for m, r in zip(members, results) if not m["vary"] and m.get("opt") is None}
     out = []
     for i, (m, r) in enumerate(zip(members, results)):
         if r["status"] not in FAIL:
             continue
         carrier = m["carrier"]
+        base = m.get("link", "shared")
         key = None
-        if plain.get(carrier) in FAIL:
+        if plain.get((carrier, base)) in FAIL:
             # The carrier does not even replay with plain names: one key for the whole carrier.
-            out.append((i, f"{plain[carrier]}:plain-names:{carrier}", bool(m["vary"])))
+            suffix = "" if base == "shared" else ":" + base
+            out.append((i, f"{plain[(carrier, base)]}:plain-names:{carrier}{suffix}",
+                        bool(m["vary"]) or m.get("opt") is not None))
+            continue
+        if m.get("opt") is not None:
+            out.append((i, f"{r['status']}:args:" + " ".join(repr(a) for a in m["opt"]) +
+                        f":{carrier}", False))
             continue
         if len(m["vary"]) == 1:
             pos, chars, place = m["vary"][0]
@@ -413,7 +556,10 @@ def main():
     with vlib.scratch("c24") as base:
         proto = os.path.join(base, "proto")
         prepare(proto)
-        members = enumerate_members(chk.thorough)
+        option_family, option_rejected = probe_option_family(base, proto, vlib.WILD, chk)
+        if not any(o["opt"] == ["-E"] for o in option_family) or len(option_family) < 10:
+            chk.machinery(f"option probe found only {[o['opt'] for o in option_family]}")
+        members = enumerate_members(chk.thorough, option_family)
         if chk.seed:
             import random
             random.Random(chk.seed).shuffle(members)
@@ -461,7 +607,7 @@ def main():
     for m, r in zip(members, results):
         counts[r["status"]] = counts.get(r["status"], 0) + 1
     for m, r in zip(members, results):
-        if not m["vary"] and r["status"] not in FAIL + ("ok",):
+        if not m["vary"] and m.get("opt") is None and r["status"] not in FAIL + ("ok",):
             chk.machinery(f"plain-name member {member_label(m)} cannot be built / linked: {r}")
     excluded = [{"member": member_label(m), "status": r["status"],
                  "why": r.get("why") or r.get("stderr", "").strip()[-120:]}
@@ -470,7 +616,9 @@ def main():
     samples = []
     for m, r in zip(members, results):
         if len(samples) < 6 and m["vary"] and r["status"] == ("ok" if len(samples) % 2 == 0
-                                                               else "replay-fails"):
+                                                               else "replay-fails") or \
+                len(samples) < 9 and m.get("opt") is not None and m["carrier"] == "rsp" and \
+                m["opt"][0] in ("-E", "-e", "-h") and r["status"] in FAIL + ("ok",):
             samples.append({"member": member_label(m), "argv": r.get("argv"),
                             "status": r["status"],
                             "run_with_tail": r.get("script_tail", "")[-300:]})
@@ -486,13 +634,20 @@ def main():
 
     evaluated = sum(v for k, v in counts.items() if k in FAIL or k == "ok")
     nontrivial = sum(1 for m, r in zip(members, results)
-                     if m["vary"] and r["status"] in FAIL + ("ok",))
+                     if (m["vary"] or m.get("opt") is not None) and r["status"] in FAIL + ("ok",))
+    opt_members = [(m, r) for m, r in zip(members, results) if m.get("opt") is not None]
+    opt_table = {}
+    for m, r in opt_members:
+        e = opt_table.setdefault(" ".join(repr(a) for a in m["opt"]),
+                                 {"base_link": m["link"], "changes_output": m["sensitive"]})
+        e[m["carrier"]] = r["status"]
     chk.coverage = {
         "evaluations": len(members), "distinct_nontrivial": nontrivial,
-        "rule": "member = carrier x varied position(s) x inserted character(s) x insertion place; "
-                "every member is distinct by construction; non-trivial = at least one "
-                "shell-significant character inserted AND the original link succeeded, so that "
-                "the replay oracle was evaluated",
+        "rule": "member = carrier x varied position(s) x inserted character(s) x insertion place, "
+                "or carrier x option-like argument sequence; every member is distinct by "
+                "construction; non-trivial = at least one shell-significant character inserted or "
+                "an option-like argument added AND the original link succeeded, so that the replay "
+                "oracle was evaluated",
         "samples": samples, "exhaustive": True, "status_counts": counts,
         "oracle_evaluated": evaluated, "failing_keys": fail_table,
         "members_rerun_after_harness_timeout": retried,
@@ -500,6 +655,18 @@ def main():
         "excluded_members": excluded,
         "richer_members_attributed_to_a_failing_single_character_key": subsumed,
         "characters": [repr(c) for c in CHARS], "carriers": CARRIERS,
+        "option_like_arguments": {
+            "members": len(opt_members),
+            "oracle_evaluated": sum(1 for _, r in opt_members if r["status"] in FAIL + ("ok",)),
+            "members_whose_argument_changes_the_output": sum(
+                1 for m, r in opt_members if m["sensitive"] and r["status"] in FAIL + ("ok",)),
+            "oracle_blind": sorted({" ".join(m["opt"]) for m, _ in opt_members
+                                    if not m["sensitive"] and len(m["opt"]) == 1}),
+            "accepted": opt_table, "rejected_by_wild": option_rejected,
+            "note": "an argument that does not change the output and takes no value could be "
+                    "dropped by the replay without the byte oracle noticing (listed as "
+                    "oracle_blind); a dropped option that takes a value makes the replay fail",
+        },
         "thinned": None if chk.thorough else
         "quick: one insertion place per character (middle; leading for - ~ #), no two-character "
         "insertions, no position pairs, nested-rsp carrier for 4 of 7 positions",
@@ -517,7 +684,8 @@ def main():
 
 
 def replay_dict(m, r):
-    return {"carrier": m["carrier"], "vary": m["vary"], "argv": r.get("argv"),
+    return {"carrier": m["carrier"], "vary": m["vary"], "opt": m.get("opt"),
+            "link": m.get("link", "shared"), "argv": r.get("argv"),
             "text_files": r.get("files"),
             "how": "python3 checks/c24.py --replay <this file>. By hand: create the named files "
                    "(objects fa/fb/fc as in c24.py), `cd W; WILD_SAVE_DIR=$PWD/../b wild <argv>`; "
@@ -533,7 +701,9 @@ def replay(chk):
         proto = os.path.join(base, "proto")
         prepare(proto)
         mm = dict(carrier=m["carrier"], vary=[tuple(v) for v in m["vary"]], idx=0, base=base,
-                  proto=proto, wild=vlib.WILD)
+                  proto=proto, wild=vlib.WILD, link=m.get("link", "shared"))
+        if m.get("opt") is not None:
+            mm.update(opt=m["opt"])
         r = run_member(mm)
         print(json.dumps(r, indent=1))
         bad = r["status"] in FAIL
